@@ -1,6 +1,6 @@
 """Per-property check configuration for ./check (counts are case counts, never time limits)."""
 
-HOOK_COMMITS = []
+HOOK_COMMITS = ["7d6b6c7", "c967367"]
 
 NOT_APPLICABLE = {}
 
@@ -161,6 +161,27 @@ CHECKS = {
             {"name": "close", "test": "TestClose", "quick": 350, "thorough": 3000, "shards": 16},
             {"name": "pairs", "test": "TestPairs", "quick": None, "thorough": None, "shards": 16, "enum": True},
             {"name": "close-rt", "test": "TestCloseRT", "quick": 150, "thorough": 1500, "shards": 16, "race": True},
+        ],
+    },
+    "C15": {
+        "pkg": "c15",
+        "level": "exploration",
+        "level_text": ("Generated server openings (option negotiations with all four verbs x option codes 0-254 biased to the common ones, "
+                       "two-byte commands 241-249, escaped IAC, banner text and arbitrary data bytes) judged by a 30-line reference negotiator "
+                       "written from the statement: exact reply list in order, and exact delivered data. Tier A sends them over loopback TCP to "
+                       "the real transport with generated segmentation and gaps; tier B drives the real negotiation loop over an in-memory "
+                       "connection (verif hook) for volume; thorough adds native fuzzing of the opening bytes through tier B."),
+        "level_note": ("Trusted: the reference negotiator. An escaped IAC may surface as 0, 1 or 2 0xFF bytes (the statement only fixes the data "
+                       "that follows it). Sub-negotiation (SB ... SE) is outside the quantifier and not generated. Tier A uses wall-clock gaps "
+                       "well below the negotiation deadline."),
+        "technique": "property-based testing (rapid) + native go fuzzing against a reference telnet negotiator; loopback TCP and in-memory hook tiers",
+        "rule": ("token list (neg/cmd/esc/data) x split plan x gaps x socket timeout x read size. Non-trivial: >=1 negotiation followed by data, or "
+                 "a two-byte command / escaped IAC present. Distinct = sha1(case)."),
+        "assumptions": ["data bytes exclude 0xF0-0xFF (telnet command range)", "no SB sub-negotiation"],
+        "subs": [
+            {"name": "mem", "test": "TestMem", "quick": 30000, "thorough": 600000, "shards": 16},
+            {"name": "tcp", "test": "TestTCP", "quick": 80, "thorough": 600, "shards": 16},
+            {"name": "fuzzmem", "test": "FuzzNegotiate", "fuzz": True, "fuzztime": "120s", "thorough_only": True},
         ],
     },
 }
